@@ -12,13 +12,13 @@ def model(ctx, g, cls, wset, maxrest, witness):
                    "ClassSet": "<- MC_ClassSet", "MaxInst": str(maxrest + 1), "MaxRestore": str(maxrest),
                    "ScalarChoices": "<- MC_ScalarChoices", "Attacker": "<- MC_Attacker"})
     label = "MC_Persist[%s,%s,|w|=%d,all x,restores<=%d]" % (g, cls, len(wset), maxrest)
-    ctx.mc("MC_Persist", cfg(spec="PersistSpec", constants=consts,
+    ctx.mc("MC_Persist", cfg(view="ViewNoLast", spec="PersistSpec", constants=consts,
                              invariants=["RestoreEquivalent", "SerializeStable", "SameOutcomes", "AtMostOneKey",
                                          "AtMostOneMsg", "EntropyOnlyInStart", "NeverKeyForWrongSide"],
                              properties=["SerializePure", "ScalarStable"]), label=label)
     if witness:
         ws = ["NoWitnessRestoredKey"]
-        ctx.witness("MC_Persist", cfg(spec="PersistSpec", constants=consts, invariants=ws), ws, label=label)
+        ctx.witness("MC_Persist", cfg(view="ViewNoLast", spec="PersistSpec", constants=consts, invariants=ws), ws, label=label)
 
 
 def inbound_classes(G, own, cls, x, q):
